@@ -300,6 +300,7 @@ type step struct {
 	ID    int    `json:"id"`
 	K     int64  `json:"k"`
 	M     int    `json:"m"`
+	X     int    `json:"x"`
 	State mstate `json:"state"`
 }
 
@@ -443,6 +444,9 @@ func (w *world) add(a string, name []byte, k int64) error {
 		}
 	}
 	c := w.ctrs[a][string(name)]
+	if k == 3 {
+		c = nil // a second Counter value for the same name in the same process: it must find the record, not make one
+	}
 	if c == nil {
 		c = w.lib[a].New(string(name))
 		w.ctrs[a][string(name)] = c
@@ -470,6 +474,59 @@ func (w *world) alien(m int, name []byte) error {
 	c.Add(1)
 	c.Add(1)
 	return nil
+}
+
+// race: library writer a (mapping just refreshed) creates the new name nm
+// while the independent writer creates x at the moment a re-maps the file it
+// has just extended, i.e. between a's lookup/reservation attempt and the
+// linking of a's record.  fired reports whether that moment occurred.
+func (w *world) race(a string, nm, x []byte, k int64) (fired bool, err error) {
+	if err := w.reopen(a); err != nil {
+		return false, err
+	}
+	var herr error
+	restore := counter.C10HookMemmap(func() { herr = indAdd(w.path, string(x), 1) })
+	err = w.add(a, nm, k)
+	fired = restore()
+	if err == nil {
+		err = herr
+	}
+	if err == nil && !fired { // the file did not have to grow: the two additions simply follow each other
+		err = indAdd(w.path, string(x), 1)
+	}
+	return fired, err
+}
+
+// leftover puts what an interrupted creation leaves behind at the place of
+// the counter file: an empty file (created, nothing written yet) or only the
+// header (the write that extends the file to a page did not happen).
+func (w *world) leftover(kind int) error {
+	if err := w.createInd(); err != nil {
+		return err
+	}
+	n := int64(0)
+	if kind == 1 {
+		n = int64(rt.V1HeaderLen(w.meta))
+	}
+	return os.Truncate(w.path, n)
+}
+
+// stackInc increments a stack counter through the library's own API (the
+// record name is whatever EncodeStack makes of this call site: newlines, dots,
+// ditto marks) and returns that name.
+func (w *world) stackInc(a string) ([]byte, error) {
+	if w.lib[a] == nil {
+		if err := w.open(a); err != nil {
+			return nil, err
+		}
+	}
+	sc := w.lib[a].NewStack("c10/stack", 4)
+	sc.Inc()
+	names := sc.Names()
+	if len(names) != 1 {
+		return nil, fmt.Errorf("stack counter has %d names", len(names))
+	}
+	return []byte(names[0]), nil
 }
 
 func (w *world) reopen(a string) error {
@@ -693,7 +750,7 @@ func TestVerifC10Ops(t *testing.T) {
 		names[id] = b
 		ids[string(b)] = id
 	}
-	okB, steps, nbad, ndiv := 0, 0, 0, 0
+	okB, steps, nbad, ndiv, nraces := 0, 0, 0, 0, 0
 	for _, bh := range in.Behaviours {
 		var w *world
 		good := true
@@ -725,9 +782,14 @@ func TestVerifC10Ops(t *testing.T) {
 			case "create":
 				w, err = newWorld(t, rng, st.M)
 				if err == nil {
-					if bh.ID%3 == 1 {
+					switch bh.ID % 5 {
+					case 1:
 						err = w.createInd()
-					} else {
+					case 3, 4: // over the remains of an interrupted creation
+						if err = w.leftover(bh.ID%5 - 3); err == nil {
+							err = w.open("lib1")
+						}
+					default:
 						err = w.open("lib1")
 					}
 				}
@@ -737,6 +799,12 @@ func TestVerifC10Ops(t *testing.T) {
 				err = w.reopen(st.A)
 			case "alien":
 				err = w.alien(st.M, names[st.ID])
+			case "race":
+				var fired bool
+				fired, err = w.race(st.A, names[st.ID], names[st.X], st.K)
+				if fired {
+					nraces++
+				}
 			}
 			steps++
 			if err != nil {
@@ -752,8 +820,11 @@ func TestVerifC10Ops(t *testing.T) {
 			ev := rt.M{"kind": "ev", "op": st.Op, "a": st.A, "k": st.K, "m": st.M, "run": 1000000 + bh.ID, "problems": len(f.Problems),
 				"name": rt.M{"id": 0, "nlen": 0, "b": 0},
 				"obs":  rt.M{"metaLen": got.MetaLen, "hdrLen": got.HdrLen, "size": got.Size, "limit": got.Limit, "heads": headsJSON(got), "recs": got.Recs}}
-			if st.Op == "add" || st.Op == "alien" {
+			if st.Op == "add" || st.Op == "alien" || st.Op == "race" {
 				ev["name"] = rt.M{"id": st.ID, "nlen": len(names[st.ID]), "b": int(rt.V1Hash(string(names[st.ID])))}
+			}
+			if st.Op == "race" {
+				ev["xname"] = rt.M{"id": st.X, "nlen": len(names[st.X]), "b": int(rt.V1Hash(string(names[st.X])))}
 			}
 			rt.Out(ev)
 			if !f.WellFormed() {
@@ -792,11 +863,12 @@ func TestVerifC10Ops(t *testing.T) {
 			okB++
 		}
 	}
-	rt.Out(rt.M{"kind": "summary", "behaviours": len(in.Behaviours), "matched": okB, "steps": steps, "diverged": ndiv})
+	rt.Out(rt.M{"kind": "summary", "behaviours": len(in.Behaviours), "matched": okB, "steps": steps, "diverged": ndiv, "races": nraces})
 
 	// ---- code -> model: random runs ------------------------------------
 	nextID := 100000
 	events := 0
+	nraces = 0
 	for run := 0; run < in.Random; run++ {
 		m := in.MetaLens[rng.Intn(len(in.MetaLens))]
 		if rng.Intn(3) == 0 {
@@ -806,10 +878,14 @@ func TestVerifC10Ops(t *testing.T) {
 		if err != nil {
 			t.Fatal(err)
 		}
-		byInd := rng.Intn(3) == 0
-		if byInd {
+		switch rng.Intn(6) {
+		case 0, 1:
 			err = w.createInd()
-		} else {
+		case 2:
+			if err = w.leftover(rng.Intn(2)); err == nil {
+				err = w.open("lib1")
+			}
+		default:
 			err = w.open("lib1")
 		}
 		if err != nil {
@@ -818,6 +894,7 @@ func TestVerifC10Ops(t *testing.T) {
 		}
 		rids := map[string]int{}
 		var pool [][]byte
+		var xn []byte // the independent writer's name of the race being logged
 		var emitM func(op, a string, name []byte, k int64, em int) bool
 		emit := func(op, a string, name []byte, k int64) bool { return emitM(op, a, name, k, m) }
 		emitM = func(op, a string, name []byte, k int64, em int) bool {
@@ -831,6 +908,9 @@ func TestVerifC10Ops(t *testing.T) {
 				"obs":  rt.M{"metaLen": obs.MetaLen, "hdrLen": obs.HdrLen, "size": obs.Size, "limit": obs.Limit, "heads": headsJSON(obs), "recs": obs.Recs}}
 			if name != nil {
 				ev["name"] = rt.M{"id": rids[string(name)], "nlen": len(name), "b": int(rt.V1Hash(string(name)))}
+			}
+			if op == "race" {
+				ev["xname"] = rt.M{"id": rids[string(xn)], "nlen": len(xn), "b": int(rt.V1Hash(string(xn)))}
 			}
 			ev["problems"] = len(f.Problems)
 			rt.Out(ev)
@@ -884,10 +964,29 @@ func TestVerifC10Ops(t *testing.T) {
 				}
 				continue
 			}
+			if rng.Intn(15) == 0 { // a stack counter, through the API
+				a := actors[rng.Intn(3)]
+				name, err := w.stackInc(a)
+				if err != nil {
+					rt.Out(rt.M{"kind": "mismatch", "what": "op-error", "op": "stack", "a": a, "err": err.Error(), "random_run": run})
+					break
+				}
+				if _, ok := rids[string(name)]; !ok {
+					nextID++
+					rids[string(name)] = nextID
+					pool = append(pool, name)
+				}
+				if !emit("add", a, name, 1) {
+					break
+				}
+				continue
+			}
 			var name []byte
+			isNew := false
 			if len(pool) > 0 && rng.Intn(3) == 0 {
 				name = pool[rng.Intn(len(pool))]
 			} else {
+				isNew = true
 				var l int
 				switch rng.Intn(6) {
 				case 0:
@@ -917,6 +1016,39 @@ func TestVerifC10Ops(t *testing.T) {
 			}
 			a := actors[rng.Intn(len(actors))]
 			k := int64(1 + rng.Intn(1000))
+			if isNew && a != "ind" && rng.Intn(2) == 0 {
+				// does the file have to grow for this name?  then let the independent writer create a name at the same time
+				if cur, _, data, err := w.observe(rids); err == nil {
+					if _, end := rt.V1Place(uint32(cur.HdrLen), uint32(cur.Limit), len(name)); int(end) > len(data) {
+						x := name
+						if rng.Intn(2) == 0 {
+							taken := map[string]bool{}
+							for _, p := range pool {
+								taken[string(p)] = true
+							}
+							if y, ok := nameInBucket(rng, 2+rng.Intn(60), int(rt.V1Hash(string(name))), taken); ok {
+								x = y
+								pool = append(pool, x)
+								nextID++
+								rids[string(x)] = nextID
+							}
+						}
+						fired, err := w.race(a, name, x, k)
+						if err != nil {
+							rt.Out(rt.M{"kind": "mismatch", "what": "op-error", "op": "race", "a": a, "nlen": len(name), "err": err.Error(), "random_run": run})
+							break
+						}
+						if fired {
+							nraces++
+						}
+						xn = x
+						if !emit("race", a, name, k) {
+							break
+						}
+						continue
+					}
+				}
+			}
 			if err := w.add(a, name, k); err != nil {
 				rt.Out(rt.M{"kind": "mismatch", "what": "op-error", "op": "add", "a": a, "nlen": len(name), "err": err.Error(), "random_run": run})
 				break
@@ -927,7 +1059,7 @@ func TestVerifC10Ops(t *testing.T) {
 		}
 		w.closeAll()
 	}
-	rt.Out(rt.M{"kind": "summary2", "runs": in.Random, "events": events})
+	rt.Out(rt.M{"kind": "summary2", "runs": in.Random, "events": events, "races": nraces})
 }
 
 func osArch() (string, string) { return runtime.GOOS, runtime.GOARCH }
